@@ -268,6 +268,16 @@ def c04(run):
                  need={"rounds": lambda r: sum(1 for e in r.get("events", []) if e.get("k") == "pick") >= 3,
                        "self_refine": lambda r: any(e.get("k") == "pick" and set(e["b"]) & set(e["pred"]) for e in r.get("events", []))})
     run.extra["hooked_refinement_runs"] = info3
+    # The refinement diverged from the internal specification (NOTE): that is not a violation of C04 by itself (another
+    # correct refinement strategy would diverge too), but it is a reason to look much harder for an input on which
+    # the END RESULT is wrong - many more DFAs of the shape refinement bugs need (few letters, many states).
+    if any(st == "hopcroft" for (st, _n) in run.internal_notes):
+        n_esc = 120000 if run.tier == "thorough" else 30000
+        log("[C04] refinement diverged from Hopcroft.tla: escalating to %d more random DFAs" % n_esc)
+        out4, info4 = _drive(run, "automata", sub="escalation", extra=["--for", "C04", "--escalate", str(n_esc)], timeout=1800)
+        run.validate("dfa_escalation_minimize", os.path.join(out4, "dfa_escalation_minimize.ndjson"), "Trace_Automata",
+                     "Trace_Automata.cfg", ["C04:", "minimize", "compile/"], workers=workers(run), nontrivial=nt, timeout=3000)
+        run.extra["escalation"] = info4
     _components(run, {"fastset", "partition"}, ["fastset", "partition"])
     run.exhaustive = True
     run.extra["exhaustive_scope"] = "all complete DFAs with <= 3 states over 2 letters (TLC-enumerated)"
